@@ -11,6 +11,7 @@ def run(ctx):
     evs = [1, 2, 3] if ctx.tier == 'quick' else [1, 2, 3, 4]
     hs = [H('VerifC08Set', 'pkg/northbound/gnmi/v2', f, unwind=12, opts={'params': {'events': n}}, replay_timeout=40,
             hang_labels=['handler-keeps-waiting-for-a-finished-transaction']) for n in evs]
+    hs += [H('VerifC08SetEnded', 'pkg/northbound/gnmi/v2', f, unwind=12, opts={'params': {'events': n}}, replay_timeout=40) for n in evs]
     fa = {'pkg/northbound/admin/zz_verif_c08_admin.go': 'c08/zz_verif_c08_admin.go'}
     hs += [H('VerifC08Rollback', 'pkg/northbound/admin', fa, unwind=12, opts={'params': {'events': n}}, replay_timeout=40,
              hang_labels=['handler-keeps-waiting-for-a-finished-transaction']) for n in evs]
